@@ -967,6 +967,9 @@ def correspondence(ctx, hs: list[dict], results: list[dict], limit: int) -> None
     byidx = {h["idx"]: h for h in hs}
     cases: list[dict] = []
     skipped = 0
+    # steps on which the implementation itself diverges (warm != cold) are judged by S; there the per-file diagnostics of
+    # the model (analyze := the cold run's table) necessarily differ from what the warm run reported
+    diverging = {(r["idx"], r["cfg"], rec["k"]) for r in results for rec in r["steps"] if canon(rec["warm"]) != canon(rec["cold"])}
     for r in results:
         for cse in model_cases(byidx[r["idx"]], r):
             if "skip" in cse:
@@ -982,6 +985,7 @@ def correspondence(ctx, hs: list[dict], results: list[dict], limit: int) -> None
         return
     bad = 0
     nontriv = 0
+    explained = 0
     for cse, o in zip(cases, out):
         pr = parse_case_result(o)
         nm = cse["names"]
@@ -998,6 +1002,9 @@ def correspondence(ctx, hs: list[dict], results: list[dict], limit: int) -> None
                           f"history {cse['idx']} [{cse['cfg']}] step {cse['k']}: model re-analyses {[nm[x] for x in got_re]}, "
                           f"mypy rechecked {[nm[x] for x in cse['rechecked']]}", {"history": byidx[cse['idx']]["descs"][: cse['k'] + 1]})
             continue
+        if (cse["idx"], cse["cfg"], cse["k"]) in diverging:
+            explained += 1
+            continue
         for m, errs in cse["report"].items():
             if got_rep.get(m) != errs:
                 bad += 1
@@ -1011,6 +1018,7 @@ def correspondence(ctx, hs: list[dict], results: list[dict], limit: int) -> None
     ctx.cov["model_steps_not_comparable"] = skipped
     ctx.cov["model_steps_partly_fresh_partly_stale"] = nontriv
     ctx.cov["model_disagreements"] = bad
+    ctx.cov["model_report_checks_skipped_on_steps_where_warm_differs_from_cold"] = explained
 
 
 # ------------------------------------------------------------------ the check
